@@ -26,6 +26,7 @@ pub fn list() -> Vec<(&'static str, super::Scenario)> {
         ("indep_stale", indep_stale),
         ("wake_stale_entry", wake_stale_entry),
         ("indep_race", indep_race),
+        ("indep_despawn", indep_despawn),
         ("sync_wipe", sync_wipe),
     ]
 }
@@ -632,6 +633,62 @@ fn indep(cfg: &Cfg) {
     shutdown();
 }
 
+/// C10 + C17: the maximum is lowered while one surplus pool thread is pinned by a job blocked on an external gate; a caller
+/// is inside `despawn_threads_if_overloaded` (which may have to wait for that thread).  The pool still has a free thread
+/// and the maximum exceeds the number of blocked objects: work on other objects must run while the gate is still closed.
+fn indep_despawn(cfg: &Cfg) {
+    use desync::scheduler::scheduler;
+    let pool = cfg.pool();
+    setup(pool);
+    let w = World::new();
+    w.prelude(cfg);
+    let mut objs = vec![];
+    let mut bgs = vec![];
+    for i in 0..pool {
+        let o = w.raw();
+        let bg = BGate::new();
+        w.desync(&o, &format!("K{}", i), Body::blocking(&bg));
+        rt::quiesce();
+        objs.push(o);
+        bgs.push(bg);
+    }
+    // every pool thread exists and is pinned; release all but one
+    let keep = cfg.opt("keep", pool as i64 - 1) as usize;
+    assert!(pool >= 3 || (pool == 2 && keep == 1), "indep_despawn: the lowered maximum must leave a thread for the free object");
+    for (i, bg) in bgs.iter().enumerate() {
+        if i != keep {
+            bg.open();
+        }
+    }
+    rt::quiesce();
+    let lower = pool - 1;
+    scheduler().verif_set_max_threads(lower);
+    let despawner = spawn(move || {
+        scheduler().despawn_threads_if_overloaded();
+    });
+    let f = w.raw();
+    let (w1, f1) = (w.clone(), f.clone());
+    let t = spawn(move || {
+        w1.desync(&f1, "F1", Body::plain());
+    });
+    rt::quiesce();
+    if !w.rec.all().iter().any(|o| o.name == "F1" && !o.ends.is_empty()) {
+        rt::violation(format!("INDEP F1 on a free object did not run while one object was blocked and a caller was despawning surplus threads (pool maximum lowered from {} to {})", pool, lower));
+    }
+    bgs[keep].open();
+    join(t, "free-scheduler");
+    join(despawner, "despawner");
+    rt::set_census_limit(POOL_NAME, lower);
+    if rt::live_threads_named(POOL_NAME) > lower {
+        rt::violation(format!("CENSUS {} pool threads alive after lowering the maximum to {} and despawning", rt::live_threads_named(POOL_NAME), lower));
+    }
+    w.desync(&f, "F2", Body::plain());
+    let mut all: Vec<&Obj> = objs.iter().collect();
+    all.push(&f);
+    finish(&w, &all, lower);
+    shutdown();
+}
+
 /// C05: the last owner of a Desync is dropped while work is queued / running / suspended
 ///  state 0: a desync queued  1: a blocking job running  2: a suspended future (gate opened by env)  3: future + desync
 ///  dropper 0: caller thread  1: a pool thread running another object's job  2: second caller racing a sync
@@ -1099,9 +1156,19 @@ fn pool_census(cfg: &Cfg) {
     } else if phases == 3 {
         // lower the maximum while every pool thread is busy: despawn must wait for the surplus threads and bring the pool down
         let mut bgs = vec![];
+        let nest = cfg.opt("nest", 0) == 1;
+        let mut nested = vec![];
         for (i, o) in objs.iter().enumerate() {
             let bg = BGate::new();
-            w.desync(o, &format!("K{}", i), Body::blocking(&bg));
+            let mut body = Body::blocking(&bg);
+            if nest {
+                // once released, the job schedules more work (on another queue) from the pool thread that is being despawned
+                let nq = w.raw();
+                let (w2, nq2, name) = (w.clone(), nq.clone(), format!("N{}", i));
+                body.action = Some(Arc::new(move || { w2.desync(&nq2, &name, Body::plain()); }));
+                nested.push(nq);
+            }
+            w.desync(o, &format!("K{}", i), body);
             bgs.push(bg);
         }
         rt::quiesce();
@@ -1126,9 +1193,12 @@ fn pool_census(cfg: &Cfg) {
             rt::violation(format!("CENSUS {} pool threads alive with maximum {}", rt::live_threads_named(POOL_NAME), lower));
         }
         if lower == 0 {
-            for o in &objs {
+            for o in objs.iter().chain(nested.iter()) {
                 w.sync(o, "kick", Body::plain());
             }
+        }
+        for o in &nested {
+            expect_idle(o);
         }
     } else if phases >= 1 {
         // raise the maximum by one and schedule blocking work on every object: exactly max threads may exist
